@@ -134,5 +134,8 @@ if __name__ == '__main__':
     elif sys.argv[1] == 'import2':
         for pid in sys.argv[2:]:
             do_import(pid, '/tmp/mut2', ('C', 'D'))
+    elif sys.argv[1] == 'import3':
+        for pid in sys.argv[2:]:
+            do_import(pid, '/tmp/mut3', ('E', 'F'))
     elif sys.argv[1] == 'run':
         sys.exit(do_run(sys.argv[2], sys.argv[3:]))
